@@ -9,6 +9,7 @@ Inductive ainsn :=
 | ABR (rn:Z) | ARET (rn:Z)
 | AB (imm26:Z)
 | ANOP
+| ABTI (k:Z)            (* BTI (HINT #32+2k): a landing pad; executes as a NOP *)
 | AADRP (rd imm21:Z)
 | AADDI (rd rn imm12:Z).                          (* ADD Xd, Xn, #imm12 (no shift) *)
 
@@ -23,6 +24,7 @@ Definition adecode (w:Z) : option ainsn :=
     else None
   else if (fld w 31 1 =? 1) && (fld w 24 5 =? 16) then Some (AADRP (fld w 0 5) (fld w 29 2 + 4 * fld w 5 19))
   else if fld w 22 10 =? 0x244 then Some (AADDI (fld w 0 5) (fld w 5 5) (fld w 10 12))    (* 1 0 0 100010 0 *)
+  else if (w =? 0xD503241F) || (w =? 0xD503245F) || (w =? 0xD503249F) || (w =? 0xD50324DF) then Some (ABTI ((w - 0xD503241F) / 64))    (* bti / bti c / bti j / bti jc *)
   else None.
 
 Record astate := { apc : Z; ax : Z -> Z; am : mem }.
@@ -37,7 +39,7 @@ Definition aexec (s:astate) (i:ainsn) : astate :=
   | AMOVK rd imm hw => {| apc := next; ax := aset (ax s) rd (ax s rd - chunk (ax s rd) hw * 2 ^ (16 * hw) + imm * 2 ^ (16 * hw)); am := am s |}
   | ABR rn | ARET rn => {| apc := ax s rn; ax := ax s; am := am s |}
   | AB imm26 => {| apc := (apc s + 4 * sextn 26 imm26) mod W; ax := ax s; am := am s |}
-  | ANOP => {| apc := next; ax := ax s; am := am s |}
+  | ANOP | ABTI _ => {| apc := next; ax := ax s; am := am s |}
   | AADRP rd imm21 => {| apc := next; ax := aset (ax s) rd ((apc s - apc s mod 4096 + 4096 * sextn 21 imm21) mod W); am := am s |}
   | AADDI rd rn imm12 => {| apc := next; ax := aset (ax s) rd ((ax s rn + imm12) mod W); am := am s |}
   end.
